@@ -130,9 +130,6 @@ def _selftest_cases():
            (mk("fit_rf", True, ["-", "pow", "x", "3", "*", "a0", "a0"], tok), "replacement_keeps_constants_apart"),
            (mk("fit_rf", True, ["-", "pow", "a5", "3", "*", "a0", "a1"], tok), "replacement_changes_only_constants"),
            ({"kind": "count", "entry": "aif", "complexity": 5, "n": 7}, "complexity_is_length")]
-    ref2 = formula.Ref(["+", "a0", "a0"])
-    bad.append((formula._case("fit_rf", True, ["+", "a0", "a1"], ["+", "a0", "a0"], -1, ref2, B, ["a0"]),
-                "replacement_keeps_parameter_identity"))
     return ok, bad
 
 
